@@ -611,6 +611,12 @@ func (f *ledgerFam) Gen(r *hx.Run) {
 		if len(raw) > 20000 {
 			nmut = 1
 		}
+		if f.sawPanic {
+			// the decoder already panicked on a declared count: random corruptions of an unpatched preallocating decoder can
+			// request hundreds of gigabytes (fe xx xx xx xx as signature count) and kill the process, losing the finding
+			nmut = 0
+			r.Hist("skipped.tx-mutations-after-panic")
+		}
 		for j := 0; j < nmut; j++ {
 			m := mutate(r, raw)
 			out := r.Do(fmt.Sprintf("tx %s %s", hx.Hex(m), keyOracle(m)))
@@ -763,7 +769,7 @@ func (f *ledgerFam) Gen(r *hx.Run) {
 			rraw := re.ToArray()
 			r.Do(fmt.Sprintf("blkbad root %s %s", hx.Hex(rraw), keyOracle(rraw)))
 		}
-		for j := 0; j < r.Pick(4, 8); j++ {
+		for j := 0; j < r.Pick(4, 8) && !f.sawPanic; j++ {
 			m := mutate(r, raw)
 			out := r.Do(fmt.Sprintf("blk %s %s", hx.Hex(m), keyOracle(m)))
 			r.Hist("blk.malformed." + outClass(out))
